@@ -12,9 +12,9 @@ pub fn decode(src: &[u8], ctx: &Context<'_>) -> io::Result<Vec<u8>> {
 
     match ctx.symbol_count.get() {
         1 => dst.fill(mapping_table[0]),
-        2 => unpack(src, mapping_table, 8, &mut dst),
-        3..=4 => unpack(src, mapping_table, 4, &mut dst),
-        5..=16 => unpack(src, mapping_table, 2, &mut dst),
+        2 => unpack(src, mapping_table, 8, &mut dst)?,
+        3..=4 => unpack(src, mapping_table, 4, &mut dst)?,
+        5..=16 => unpack(src, mapping_table, 2, &mut dst)?,
         n => {
             return Err(io::Error::new(
                 io::ErrorKind::InvalidInput,
@@ -26,7 +26,7 @@ pub fn decode(src: &[u8], ctx: &Context<'_>) -> io::Result<Vec<u8>> {
     Ok(dst)
 }
 
-fn unpack(src: &[u8], mapping_table: &[u8], chunk_size: usize, dst: &mut [u8]) {
+fn unpack(src: &[u8], mapping_table: &[u8], chunk_size: usize, dst: &mut [u8]) -> io::Result<()> {
     const BITS: usize = u8::BITS as usize;
 
     let shift = BITS / chunk_size;
@@ -34,10 +34,23 @@ fn unpack(src: &[u8], mapping_table: &[u8], chunk_size: usize, dst: &mut [u8]) {
 
     for (mut s, chunk) in src.iter().copied().zip(dst.chunks_mut(chunk_size)) {
         for d in chunk {
-            *d = mapping_table[usize::from(s & mask)];
+            let i = usize::from(s & mask);
+
+            *d = mapping_table.get(i).copied().ok_or_else(|| {
+                io::Error::new(
+                    io::ErrorKind::InvalidData,
+                    format!(
+                        "invalid bit pack symbol: expected < {}, got {i}",
+                        mapping_table.len()
+                    ),
+                )
+            })?;
+
             s >>= shift;
         }
     }
+
+    Ok(())
 }
 
 #[cfg(test)]
